@@ -13,17 +13,16 @@ Definition cliT (s : tsig) : cli :=
         (map (kind_name_of_arg s) l) (map takes_value l).
 
 Lemma guard_parts s : guard s = true ->
-  wf_sig s = true /\ all_have_core s = true /\ no_steal s = true /\ no_inverse_clash s = true.
+  wf_sig s = true /\ all_have_core s = true /\ no_inverse_clash s = true.
 Proof.
   unfold guard. intros H.
-  apply andb_true_iff in H; destruct H as [H H4].
   apply andb_true_iff in H; destruct H as [H H3].
   apply andb_true_iff in H; destruct H as [H1 H2]. auto.
 Qed.
 
-Lemma sig_cli_guard s : wf_sig s = true -> no_steal s = true -> sig_cli s = Ok (cliT s).
+Lemma sig_cli_guard s : wf_sig s = true -> sig_cli s = Ok (cliT s).
 Proof.
-  intros W Ns. pose proof (sig_ctx_closed_form s W Ns) as Hc.
+  intros W. pose proof (sig_ctx_closed_form s W) as Hc.
   set (l := get_arguments s) in *.
   assert (Ho : sig_cli s = Ok (mkCli l (T_flags l) (T_fal l) (T_inv l) (T_pos l) (as_kwargs (T l))
                                      (bind_ok (s_params s) (as_kwargs (T l)))
@@ -252,7 +251,6 @@ Qed.
 Section Clauses.
   Variable s : tsig.
   Hypothesis W : wf_sig s = true.
-  Hypothesis Ns : no_steal s = true.
   Let l := get_arguments s.
 
   Lemma G : good l.
@@ -451,7 +449,7 @@ Section Clauses.
   Lemma clause_positional : positional_sane s = true -> positional_ok s (cliT s) = true.
   Proof.
     intros Hs. destruct (pos_facts Hs) as [NP Inc].
-    destruct (positional_order s (cliT s) W (sig_cli_guard s W Ns) NP Inc) as [Hfirst Hpos].
+    destruct (positional_order s (cliT s) W (sig_cli_guard s W) NP Inc) as [Hfirst Hpos].
     set (pos := fill_implicit_positionals s) in *.
     (* what the positional list reads back as *)
     assert (Hgot : flat_map (fun m => match pyname_of_main (cliT s) m with Some n => [n] | None => [""] end)
@@ -555,11 +553,11 @@ End Clauses.
 Theorem spec_partial s : full_guard s = true -> spec_ok s (sig_cli s) = true.
 Proof.
   unfold full_guard. intros H. apply andb_true_iff in H. destruct H as [Hg Hs].
-  destruct (guard_parts s Hg) as (W & Hc & Ns & Hic).
-  rewrite (sig_cli_guard s W Ns). unfold spec_ok.
+  destruct (guard_parts s Hg) as (W & Hc & Hic).
+  rewrite (sig_cli_guard s W). unfold spec_ok.
   assert (Hd : dashed_clash s = false).
   { unfold wf_sig in W. apply andb_true_iff in W. destruct W as [_ W]. now apply negb_true_iff in W. }
-  rewrite Hd, (clause_one_arg s W), (clause_flags_wf s W Ns Hc), (clause_flags_distinct s W Ns Hic),
-    (clause_positional s W Ns Hs), (clause_kinds s W Ns), (clause_kwargs s W).
+  rewrite Hd, (clause_one_arg s W), (clause_flags_wf s W Hc), (clause_flags_distinct s W Hic),
+    (clause_positional s W Hs), (clause_kinds s W), (clause_kwargs s W).
   reflexivity.
 Qed.
